@@ -50,6 +50,16 @@ def opsAsm (op : String) (j : Json) : Option (Except String Json) :=
                    ("rootId", optJson (rootId n)), ("frame", nodeToJson (frame n)),
                    ("text", if getBoolD j "wantText" false then jstr text else Json.null)])
       | none => pure (Json.mkObj [("ok", false)])
+  | "asm.valid" => some do
+      -- the model's verdict on the whole conversion tail: fields + (deep) parts → assemble → validate_xml_document
+      let f ← fieldsOfJson (← j.getObjVal? "fields")
+      let itext ← match j.getObjVal? "itext" with
+        | .ok (.arr a) => do let ks ← a.toList.mapM nodeOfJson; pure (some ks)
+        | _ => pure none
+      let rootKids ← nodeList j "rootKids"
+      let rest ← nodeList j "rest"
+      let body ← nodeList j "body"
+      pure (Json.mkObj [("valid", validDoc [] (assemble f itext rootKids rest body))])
   | "xml.validdoc" => some do
       -- the model of validate_xml_document on a DOM tree, and what the XML spec says about the same tree
       let n ← nodeOfJson (← j.getObjVal? "tree")
